@@ -59,6 +59,7 @@ class Ctx:
         self.rule_counts = {}
         self.floors = {}
         self._rule = None
+        self.inconclusive_rules = []
 
     # -- called by rules
     def rule(self, rule_id, floor=0, what=""):
@@ -89,6 +90,13 @@ class Ctx:
         self.findings.append(f)
         self.instances.append({"rule": r, "construct": construct, "site": site,
                                "verdict": "violated", "what": message, "facts": detail or {}})
+
+    def attempt(self, fn, *args):
+        """Run one rule; an AnalysisError makes that rule inconclusive, the others still run."""
+        try:
+            fn(self, *args)
+        except AnalysisError as e:
+            self.inconclusive_rules.append(str(e))
 
     def note(self, text):
         self.notes.append(text)
